@@ -809,7 +809,8 @@ REPLACEMENTS = ["0", "-1", "1.5", "j", "2r", "3i", "1e", "x", "zz9", "(", ")", "
                 "imp:n", "u=2", "*", "1-2", "--1", ".", "1.2.3", "99999999999999999999", "1e999", "fill", "so",
                 "m", "tr", "n", "1e-3"]
 TOKEN_KINDS = ["delete", "duplicate", "replace", "junk", "truncate", "negate", "zero", "deint", "dangle", "dupnum"]
-FILE_KINDS = ["drop_block", "drop_blank", "read_missing", "read_self", "only_title", "empty"]
+FILE_KINDS = ["drop_block", "drop_blank", "read_missing", "read_self", "read_valid", "read_nofile", "read_bare", "read_fle",
+              "read_eq", "only_title", "empty"]
 REF_ROLES = ("surfref", "cellref", "matnum", "trref", "perref", "pval:fill", "dval:fill")
 NUM_ROLES = ("cellnum", "surfnum", "dataword")
 
@@ -931,6 +932,15 @@ def file_corruptions(text, info, rng, name="case.i"):
         for kind, target in (("read_missing", "no_such_file_c13.i"), ("read_self", name)):
             new = lines[:at] + ["read file=" + target] + lines[at:]
             out.append(("\n".join(new), {"kind": kind, "where": where, "target": target}, None))
+    # a read input in the data block with its target present: intact (the target's cards must arrive in the problem),
+    # and with the single corruptions that keep the word `read` but lose the file parameter
+    sub = {"sub13.i": "ctme 77\n"}
+    at = (blanks[1] + 1) if len(blanks) >= 2 else info["first_line"]
+    for kind, card in (("read_valid", "read file=sub13.i"), ("read_nofile", "read"), ("read_bare", "read sub13.i"),
+                       ("read_fle", "read fle=sub13.i"), ("read_eq", "read file=")):
+        if len(blanks) >= 2:
+            new = lines[:at] + [card] + lines[at:]
+            out.append(("\n".join(new), {"kind": kind, "where": "data", "card": card}, dict(sub)))
     out.append((lines[info["title_line"]] + "\n", {"kind": "only_title"}, None))
     out.append(("", {"kind": "empty"}, None))
     return out
@@ -969,7 +979,8 @@ def spec_read(text):
         elif spec.read_number(t0) is not None:
             inv.append(f"cell number {t0} is not a positive integer")
         t1 = toks[1] if len(toks) > 1 else ""
-        if t1 != "LIKE" and re.match(r"^[+-]?\d+$", t0) and spec.read_number(t1) is not None and not re.match(r"^\+?\d+$", t1):
+        if t1 != "LIKE" and re.match(r"^[+-]?\d+$", t0) and spec.read_number(t1) is not None \
+                and not (re.match(r"^[+-]?\d+$", t1) and int(t1) >= 0):
             inv.append(f"material number {t1} of cell {t0} is not a non-negative integer")
         try:
             c = spec.parse_cell(card)
@@ -1171,6 +1182,21 @@ def trailing_cards(text):
     return out
 
 
+def missing_read_content(case, summ):
+    """first words of the cards of well-formed read targets (data block, file present) that the problem lacks"""
+    files = case.get("files") or {}
+    miss = []
+    for m in re.finditer(r"(?im)^ {0,4}read\s+file\s*=\s*(\S+)\s*$", case["text"]):
+        t = m.group(1)
+        if t in files:
+            for l in files[t].split("\n"):
+                if l.strip() and not _is_comment(l) and l[:5].strip() and not l.lower().startswith("read"):
+                    w = l.split()[0].lower()
+                    if w not in summ.get("data", []):
+                        miss.append(w)
+    return miss
+
+
 def _fail(kind, mode, r=None, **kw):
     d = {"kind": kind, "mode": mode}
     if r is not None:
@@ -1202,7 +1228,13 @@ def judge(case, res):
         if summ is not None:
             tc = trailing_cards(case["text"])
             extra = [w for w in tc if w in summ.get("data", []) and w not in sp["data"]]
-        if extra:
+        if summ is not None and "read" in summ.get("data", []):
+            # a read input is an instruction to the reader, never a data input of the problem
+            fails.append(_fail("misrepresents", "read", what="read input kept as a data input"))
+        elif summ is not None and missing_read_content(case, summ):
+            fails.append(_fail("misrepresents", "read", what="cards of a read target are not in the problem",
+                               cards=missing_read_content(case, summ)[:4]))
+        elif extra:
             fails.append(_fail("reads-past-terminator", "read", what="data", cards=extra[:4]))
         elif sp["invalid"]:
             what = re.sub(r"-?\d+(\.\d+)?", "N", sp["invalid"][0])
